@@ -25,7 +25,9 @@ def writer_loops(k, sink_size):
     (mangled-name templates: impl methods / nested fns).  A template that does not match any loop only costs time."""
     fcm = "_RNvNvXs_NtNtNt{libpatch}5patch7unified6writerINtBa_4HunkRShENtB6_22UnifiedPatchHunkWriter8write_to18find_closest_match"
     wt = "_RINvXs_NtNtNt{libpatch}5patch7unified6writerINtB9_4HunkRShENtB5_22UnifiedPatchHunkWriter8write_toINtNtNtB7_6parser7verif_h4SinkKj%x_EEBb_" % sink_size
-    return {fcm + ".0": 2 * k + 2, fcm + ".1": k + 2, wt + ".0": 2 * k + 2, wt + ".1": k + 2, wt + ".2": k + 2}
+    # loop ids as CBMC numbers them: find_closest_match .0 = inner (j), .1 = outer (i < a.len + b.len); write_to .0 / .1 = the two
+    # `for _ in 0..count` loops, .2 = the outer while (one line at least per round).  Unwinding assertions stay on.
+    return {fcm + ".0": k + 2, fcm + ".1": 2 * k + 2, wt + ".0": k + 2, wt + ".1": k + 2, wt + ".2": 2 * k + 2}
 
 
 def rej_loops(h, sink_size):
